@@ -106,7 +106,7 @@ class Restrict(_TB):
         PG = G.prob
         for n in range(Mc + 1):
             er = PG.find_eval(G.f[n])
-            tn = G.time if n == 0 else G.time + G.dt * G.sweep.coll.nodes[n - 1]
+            tn = G.status.time if n == 0 else G.status.time + G.params.dt * G.sweep.coll.nodes[n - 1]
             yield f'f{n}:coarse_rhs_of_restricted_value_at_coarse_node_time', er is not None and bool(veq(er.u, G.u[n])) is True and bool(seq(er.t, tn)) is True
         IF, IG = spec_integrate(F), spec_integrate(G)
         for n in range(Mc):
@@ -189,7 +189,7 @@ class Prolong(_TB):
                 yield f'u{n}:unchanged_coarse_values_change_nothing', veq(F.u[n], st.old_u[n])
             if self.fn == 'prolong':
                 er = F.prob.find_eval(F.f[n])
-                yield f'f{n}:re_evaluated_at_new_value', er is not None and bool(veq(er.u, F.u[n])) is True and bool(seq(er.t, F.time + F.dt * F.sweep.coll.nodes[n - 1])) is True
+                yield f'f{n}:re_evaluated_at_new_value', er is not None and bool(veq(er.u, F.u[n])) is True and bool(seq(er.t, F.status.time + F.params.dt * F.sweep.coll.nodes[n - 1])) is True
             else:
                 fcorr = vsum(P[n - 1, m] * Ps(bt, G.f[m + 1] - G.fold[m + 1]) for m in range(Mc))
                 yield f'f{n}:coarse_rhs_correction_added', veq(F.f[n], st.old_f[n] + fcorr)
@@ -340,10 +340,10 @@ class MassRestrict(_TB):
         yield 'u0:restricted_mass_weighted_fine_start_value', veq(G.u[0], sp.restrict(MF(F.u[0])))
         PG = G.prob
         er0 = PG.find_eval(G.f[0])
-        yield 'f0:coarse_rhs_of_projected_start_value', er0 is not None and bool(veq(er0.u, u0_proj)) is True and bool(seq(er0.t, G.time)) is True
+        yield 'f0:coarse_rhs_of_projected_start_value', er0 is not None and bool(veq(er0.u, u0_proj)) is True and bool(seq(er0.t, G.status.time)) is True
         for n in range(1, Mc + 1):
             er = PG.find_eval(G.f[n])
-            yield f'f{n}:coarse_rhs_of_coarse_value_at_coarse_node_time', er is not None and bool(veq(er.u, G.u[n])) is True and bool(seq(er.t, G.time + G.dt * G.sweep.coll.nodes[n - 1])) is True
+            yield f'f{n}:coarse_rhs_of_coarse_value_at_coarse_node_time', er is not None and bool(veq(er.u, G.u[n])) is True and bool(seq(er.t, G.status.time + G.params.dt * G.sweep.coll.nodes[n - 1])) is True
         IF, IG = spec_integrate(F), spec_integrate(G)
         for n in range(Mc):
             exp = MG(G.u[n + 1]) - IG[n] - vsum(R[n, m] * sp.restrict(MF(F.u[m + 1]) - IF[m]) for m in range(Mf))
